@@ -6,7 +6,8 @@
 EXTENDS AssetCache, Json
 
 CONSTANTS Ops,      \* the calls the client may make in this world (records)
-          N         \* behaviour length
+          N,        \* behaviour length
+          Keep(_)   \* which complete behaviours are emitted (a filter over the history)
 VARIABLE hist
 gvars == <<env, graph, toReload, evq, mode, ver, handled, d8, od, last, hist>>
 
@@ -40,6 +41,7 @@ Do(o) ==
       [] o.op = "send"     -> Send(o.batch)
       [] o.op = "sync"     -> Sync
       [] o.op = "notify"   -> Notify(o.batch)
+      [] o.op = "editn"    -> EditNotify(o.f, o.c)
       [] o.op = "hot_reload" -> HotReload
       [] o.op = "enhance"  -> Enhance
 
@@ -52,5 +54,11 @@ GNext == /\ Len(hist) <= N
 
 GSpec == GInit /\ [][GNext]_gvars
 
-Emit == (Len(hist) = N + 1) => PrintT(<<"REPLAY", ToJson(hist)>>)
+KeepAll(h) == TRUE
+CountOp(h, o) == Cardinality({i \in 2..Len(h) : h[i].step.op = o})
+(* at least two reload passes, each after a notification: histories in which the dependency graph *)
+(* is rewritten by one pass and used by the next                                                 *)
+KeepTwoPasses(h) == CountOp(h, "hot_reload") >= 2 /\ CountOp(h, "notify") >= 2 /\ h[2].step.op = "load" /\ h[Len(h)].step.op = "hot_reload"
+
+Emit == (Len(hist) = N + 1 /\ Keep(hist)) => PrintT(<<"REPLAY", ToJson(hist)>>)
 =============================================================================
